@@ -69,6 +69,13 @@ def generate(rng, tier, index):
         # an archive with thousands of snapshots: the reader's index has to grow beyond its initial capacity, several times
         ops += [dict(op="arm", kind="step", value=1), dict(op="integrate", span=abs(cfg["dt"]) * rng.derive("big").randint(1030, 2300), exact=0)]
         auto = "step"
+    if merge and rng.derive("tracefull").chance(0.05):
+        # mergers inside a full TRACE pericentre step (the encounter map holds flags there, not indices)
+        tf = rng.derive("tracefull")
+        ops += [dict(op="switch", integrator="trace", opts={"ri_trace.r_crit_hill": tf.choice([2.0, 4.0]), "ri_trace.peri_crit_eta": 0.5, "ri_trace.peri_mode": 2}),
+                dict(op="add_overlap", pick=tf.randint(0, 10), hash=2901), dict(op="add_overlap", pick=tf.randint(0, 10), hash=2902), dict(op="add_overlap", pick=tf.randint(0, 10), hash=2903),
+                dict(op="steps", n=tf.randint(2, 4)), dict(op="snapshot")]
+        cur = "trace"
     for i in range(nops):
         kind = o.weighted([("steps", 26), ("integrate", 10), ("snapshot", 24), ("add", 8), ("add_many", 1.5), ("remove", 8), ("remove_hash", 3),
                            ("remove_all", 2), ("switch", 6), ("reset_integrator", 4), ("set", 6), ("add_variation", 2), ("megno", 1),
